@@ -256,7 +256,7 @@ func runProof(s *vsimcore.Sim, p vsimcore.Params) vsimcore.RunInfo {
 			}
 			fault := s.ChooseW("sparsefault", []int{10, 2, 2, 2, 1, 1, 1})
 			desc := "clean"
-			exact := true          // expected set known exactly
+			exact := true // expected set known exactly
 			validOffered := truth[src].clone()
 			allValid := true
 			if len(cp.Signatures) == 0 && fault >= 1 && fault <= 4 {
